@@ -349,4 +349,28 @@ theorem strRemoveI_wf {w : World} (hw : Wf w) {p : Nat} (hp : p < w.strs.length)
       · simp [allocArr]
   · exact ⟨hw, rfl, rfl, rfl, Nat.le_refl _⟩
 
+/-- list core of the in-place `append(s[:i], s[i+1:]...)`: overwriting the slots from `off+i` on with the
+    elements behind position `i` and cutting the window to `len-1` leaves `eraseIdx i` of the old window -/
+theorem shift_list (old : List Int) (off len i : Nat) (hi : i < len) (hb : off + len ≤ old.length) :
+    let content := (old.drop off).take len
+    let tail := content.drop (i + 1)
+    (((old.take (off + i) ++ tail ++ old.drop (off + i + tail.length)).drop off).take (i + tail.length))
+      = content.eraseIdx i := by
+  intro content tail
+  have hcl : content.length = len := by simp [content, List.length_take, List.length_drop]; omega
+  have htl : tail.length = len - (i + 1) := by simp [tail, hcl]
+  have hA : (old.take (off + i)).length = off + i := by simp [List.length_take]; omega
+  have h1 : (old.take (off + i) ++ tail ++ old.drop (off + i + tail.length)).drop off
+      = (old.take (off + i)).drop off ++ tail ++ old.drop (off + i + tail.length) := by
+    rw [List.append_assoc, List.drop_append_of_le_length (by omega), List.append_assoc]
+  have h2 : (old.take (off + i)).drop off = content.take i := by
+    simp only [content]
+    rw [List.drop_take, List.take_take]
+    congr 1
+    omega
+  have hAl : (content.take i).length = i := by simp [List.length_take, hcl]; omega
+  rw [h1, h2, List.append_assoc, List.eraseIdx_eq_take_drop_succ]
+  rw [List.take_append, hAl, List.take_of_length_le (by omega : (content.take i).length ≤ i + tail.length),
+    Nat.add_sub_cancel_left, List.take_append_of_le_length (Nat.le_refl _), List.take_length]
+
 end FpgoVerif.C04
